@@ -34,6 +34,13 @@ pub struct Output {
     path: Arc<Path>,
     creator: FileCreator,
     config: OutputConfig,
+
+    /// Whether `write` got as far as creating (or opening for in-place update) the output file.
+    opened: std::cell::Cell<bool>,
+
+    /// Set by `commit` once the link has succeeded. If we're dropped without this being set, then
+    /// the link failed and we delete whatever we wrote to the output path.
+    committed: std::cell::Cell<bool>,
 }
 
 #[derive(Clone, Copy)]
@@ -140,7 +147,14 @@ impl Output {
                 should_write_trace: args.common().write_trace,
                 use_mmap: args.common().mmap_output_file,
             },
+            opened: std::cell::Cell::new(false),
+            committed: std::cell::Cell::new(false),
         }
+    }
+
+    /// Declares the link successful. Without this, the output file gets deleted when we're dropped.
+    pub(crate) fn commit(&self) {
+        self.committed.set(true);
     }
 
     pub(crate) fn set_size(&mut self, size: u64) {
@@ -221,6 +235,7 @@ impl Output {
                 self.create_file_non_lazily(file_size)?
             }
         };
+        self.opened.set(true);
         #[cfg(feature = "verif")]
         crate::verif_api::fault::fault_point("after-output-created")?;
 
@@ -268,6 +283,36 @@ fn temporary_sibling_path(path: &Path) -> std::path::PathBuf {
     name.push(path.file_name().unwrap_or_default());
     name.push(format!(".wild-old.{}", std::process::id()));
     path.with_file_name(name)
+}
+
+/// Deletes the output file of a link that failed, so that a build system doesn't mistake a partial
+/// output for a fresh one. We only delete regular files. e.g. we don't want to delete `/dev/null`.
+pub(crate) fn remove_failed_output(path: &Path) {
+    if std::fs::symlink_metadata(path).is_ok_and(|meta| meta.file_type().is_file()) {
+        let _ = std::fs::remove_file(path);
+    }
+}
+
+impl Drop for Output {
+    fn drop(&mut self) {
+        if self.committed.get() {
+            return;
+        }
+        let mut opened = self.opened.get();
+        if !opened
+            && let FileCreator::Background {
+                sized_output_sender: None,
+                sized_output_recv,
+            } = &self.creator
+        {
+            // `set_size` started creating the file in the background, but we failed before `write`
+            // picked it up. Wait for the creation to finish so that we don't race with it.
+            opened = matches!(sized_output_recv.recv(), Ok(Ok(_)));
+        }
+        if opened {
+            remove_failed_output(&self.path);
+        }
+    }
 }
 
 /// Delete the old output file. Note, this is only used when running from a single thread.
